@@ -171,7 +171,7 @@ FINDINGS = [
             "count 0 gives a segment count of 0 and smpi_coll_tuned_ompi_reduce_generic computes "
             "(original_count + count_by_segment - 1) / count_by_segment"),
     Finding(OMPI_REDUCE + " reduce/ompi", "np=1:crash-or-unset-result", P("np == 1 and c > 0"), {CRASH, WRONG, DEAD},
-            W(1, "flat", "b 0 0 1 int sum"),
+            {"*": W(1, "flat", "b 0 0 1 int sum"), "reduce/ompi": W(1, "flat", "b 0 0 2 int max")},
             "the generic ompi reduce does not handle a communicator of one rank (sends to rank -333, or leaves recvbuf unset)"),
     Finding("reduce/flat_tree", "MPI_IN_PLACE-dereferenced:crash", P("mode == 'ip' and c > 0"), {CRASH}, W(2, "flat", "ip 0 0 1 int sum"),
             "the root uses sbuf as a buffer without testing for MPI_IN_PLACE"),
@@ -280,6 +280,12 @@ FINDINGS = [
     Finding("allreduce/impi", "np=nonpow2:selects-rab1:abort", P("not pow2 and c > 0"), {CRASH},
             W(3, "flat", "b 0 0 4099 int sum"), "the Intel table selects allreduce__rab1 whatever the communicator size; rab1 "
             "throws 'can't be used with non power of two number of processes'", via="allreduce/rab1"),
+    Finding("allreduce/impi", "dt=holes:selects-rab1:stray-write", P("holes and c > 0 and np > 1 and pow2"), {STRAY},
+            W(8, "blk4", "ip 0 0 4099 vec user"), "the Intel table selects allreduce__rab1, which copies whole extents over the "
+            "holes of a derived datatype", via="allreduce/rab1"),
+    Finding("reduce_scatter/ompi", "np=1:selects-ompi_butterfly:wrong-result", P("np == 1 and total > 0 and mode == 'b'"), {WRONG},
+            W(1, "flat", "b 0 0 8200 dbl max"), "for 64 kB <= message < 128 kB the selector uses reduce_scatter__ompi_butterfly, "
+            "which leaves the receive buffer untouched on a communicator of one rank", via="reduce_scatter/ompi_butterfly"),
     Finding("bcast/impi", "one-rank-per-host:selects-SMP_linear", P("K == 1 and np > 1"), {CRASH, DEAD, WRONG, STRAY, ERR},
             W(2, "flat", "b 0 0 1 int none", "b 1 0 1 int none"), "the Intel table selects bcast__SMP_linear, which is wrong "
             "with one rank per host", via="bcast/SMP_linear"),
@@ -316,10 +322,8 @@ def _automatic_rows():
         "barrier": P("np != 2"),
     }
     out = []
-    for coll in G.TABLE_CALLS:
-        base = [f for f in FINDINGS if not f.via and any(u.split("/")[0] == coll and not u.endswith("/automatic") for u in f.units)]
-        if not base and coll not in extra:
-            continue
+    for coll in ("allreduce", "alltoall", "barrier", "bcast", "gather", "reduce", "reduce_scatter", "scatter"):
+        base = [f for f in FINDINGS if any(u.split("/")[0] == coll and not u.endswith("/automatic") for u in f.units)]
         preds = [f.pred for f in base] + ([extra[coll]] if coll in extra else [])
         kinds = set().union(*[f.kinds for f in base]) | {CRASH, WRONG}
 
